@@ -642,5 +642,25 @@ def main(argv):
     return check(argv[0], tier)
 
 
+def _on_signal(signum, frame):
+    # make an external kill visible (a silent death would look like a broken check)
+    sys.stdout.write("INTERRUPTED by signal %d (no verdict)\n" % signum)
+    sys.stdout.flush()
+    os._exit(3)
+
+
 if __name__ == "__main__":
-    sys.exit(main(sys.argv[1:]))
+    import signal
+    import traceback
+    for _s in (signal.SIGTERM, signal.SIGHUP):
+        signal.signal(_s, _on_signal)
+    try:
+        rc = main(sys.argv[1:])
+    except BaseException as e:  # noqa: BLE001 — an internal error of the machinery is reported as such, never as a verdict
+        if isinstance(e, SystemExit):
+            raise
+        traceback.print_exc(file=sys.stdout)
+        print("INTERNAL-ERROR in the verification machinery (no verdict): %r" % (e,))
+        sys.stdout.flush()
+        rc = 3
+    sys.exit(rc)
